@@ -28,7 +28,7 @@ BASE = ["-O1", "-g", "-fno-omit-frame-pointer", "-fno-optimize-sibling-calls",
         "-DHAVE_CONFIG_H", "-D_GNU_SOURCE", "-DXRL_VERIF_SIM"]
 
 # Undefined references of the *library* that are diverted to the simulator (xs_*).
-SEAMS = """malloc calloc realloc free strdup strndup vasprintf asprintf
+SEAMS = """malloc calloc realloc free strdup strndup vasprintf asprintf reallocarray aligned_alloc memalign valloc posix_memalign getline getdelim
 fopen fdopen freopen setlocale newlocale duplocale freelocale uselocale strtod strtof strtold atof __isoc99_sscanf __isoc99_fscanf sscanf fscanf
 strtol strtoul atoi
 memcpy memmove memset strcmp strncmp strlen strcpy strncpy strcat memcmp
@@ -41,6 +41,10 @@ pthread_spin_init pthread_spin_destroy pthread_spin_lock pthread_spin_trylock pt
 pthread_rwlock_init pthread_rwlock_destroy pthread_rwlock_rdlock pthread_rwlock_tryrdlock pthread_rwlock_wrlock pthread_rwlock_trywrlock pthread_rwlock_unlock
 pthread_cond_init pthread_cond_destroy pthread_cond_wait pthread_cond_timedwait pthread_cond_signal pthread_cond_broadcast
 chdir fesetround""".split()
+
+# other names of the same libc entry points (LFS aliases, C23 scanf family, fortified variants do not occur: the build does not define _FORTIFY_SOURCE)
+SEAM_ALIASES = {"fopen64": "fopen", "freopen64": "freopen", "__isoc23_sscanf": "sscanf", "__isoc23_fscanf": "fscanf",
+                "__isoc23_strtol": "strtol", "__isoc23_strtoul": "strtoul", "__getdelim": "getdelim"}
 
 # externals that are deterministic, MT-safe and stateless: left real
 ALLOW = set("""asin acos atan atan2 cos sin tan exp log log10 pow sqrt fabs floor ceil fmod cbrt hypot
@@ -406,11 +410,13 @@ def build(tag, verbose=False, jobs=16, kissel=False):
     with open(seam_map, "w") as f:
         for s in SEAMS:
             f.write("%s xs_%s\n" % (s, s))
+        for s in SEAM_ALIASES:      # objcopy wants distinct targets: rt.cc defines xs_<alias> as an alias symbol of xs_<base>
+            f.write("%s xs_%s\n" % (s, s))
     final = os.path.join(odir, "libxrl_sim.o")
     sh(["objcopy", "--redefine-syms=" + seam_map, merged, final])
-    unmodelled = sorted(u for u in und if u not in SEAMS and u not in ALLOW and not u.startswith(SAN_PREFIXES))
+    unmodelled = sorted(u for u in und if u not in SEAMS and u not in SEAM_ALIASES and u not in ALLOW and not u.startswith(SAN_PREFIXES))
     info["unmodelled_externals"] = unmodelled
-    info["seams_used"] = sorted(u for u in und if u in SEAMS)
+    info["seams_used"] = sorted(u for u in und if u in SEAMS or u in SEAM_ALIASES)
     info["mt_unsafe_used"] = sorted(u for u in und if u in MT_UNSAFE)
     # atomics / lock-prefixed instructions (DESIGN §2.5): functions that contain an atomic read-modify-write, an
     # xchg with memory, a fence or a call to an __atomic_* helper.  A race report whose two sites both lie in such
